@@ -500,11 +500,26 @@ func main() {
 					c.Split = append(c.Split, 1)
 				}
 				cases = append(cases, c)
+				if mask == 3 {
+					// the split arguments named in the other order
+					c2 := c
+					c2.Values = append([]string{}, c.Values...)
+					c2.Split = []int{1, 0}
+					cases = append(cases, c2)
+				}
 			}
 		}
 	}
+	// three split arguments, every order in which the invocation data may name them
+	{
+		t := "int"
+		v := `{"split":[1,2]}`
+		for _, ord := range [][]int{{0, 1, 2}, {0, 2, 1}, {1, 0, 2}, {1, 2, 0}, {2, 0, 1}, {2, 1, 0}} {
+			cases = append(cases, Case{Types: []string{t, t, t}, Values: []string{v, v, v}, Split: ord})
+		}
+	}
 	r.Rule = "stage signatures with 1 parameter over 75 types (9 base types x array depth 0-2 x typed-map nesting 0-2) x every value of a per-type list (nested structs, typed maps, nulls, +-2^53+-1, max/min int64, 1e21, 5e-324, -0.0, strings with escapes/NUL/non-ASCII, empty collections) and split over an array, a typed map and an empty array of the values; " +
-		"signatures with 2 parameters (all ordered type pairs, depth<=1 in quick) x all 4 split subsets; each through BuildCallSource -> compile -> InvocationDataFromSource -> BuildCallSource: call name, include, split set, argument values (numbers as exact decimals) and text stability; " +
+		"signatures with 2 parameters (all ordered type pairs, depth<=1 in quick) x all 4 split subsets (both orders of naming two split arguments, all 6 orders of three); each through BuildCallSource -> compile -> InvocationDataFromSource -> BuildCallSource: call name, include, split set, argument values (numbers as exact decimals) and text stability; " +
 		"plus the _invocation file of every stage fork of 9 real pipestance runs (compiles, arguments equal the job's). distinct = distinct (signature, values, split set); non-trivial = some argument is not null"
 	r.Set("cases", len(cases))
 	order := r.Rotate(len(cases))
